@@ -15,7 +15,8 @@ var (
 	PortNames = []string{"http", "dns", "metrics"}
 	PortNums  = []int{53, 80, 81, 8080, 65535, 1, 79, 443}
 	CIDRs     = []string{"10.0.0.0/8", "10.1.0.0/16", "10.1.2.0/24", "0.0.0.0/0", "192.168.0.0/16", "10.1.2.3/32",
-		"128.0.0.0/1", "0.0.0.0/1", "10.0.0.0/9", "10.1.2.4/30", "255.255.255.255/32", "0.0.0.0/32", "10.1.3.0/24", "172.16.0.0/12"}
+		"128.0.0.0/1", "0.0.0.0/1", "10.0.0.0/9", "10.1.2.4/30", "255.255.255.255/32", "0.0.0.0/32", "10.1.3.0/24", "172.16.0.0/12",
+		"127.0.0.1/32", "127.0.0.0/8"} // 127.0.0.1 is the host address the tool gives to every pod it derives from a workload manifest
 	Protos = []string{"TCP", "UDP", "SCTP"}
 )
 
@@ -33,6 +34,8 @@ type Cfg struct {
 	AllNsObjects   bool    // every namespace gets a Namespace object
 	UnusedNsPolicy float64 // probability that a policy lives in a namespace that has no workload
 	LargeVocab     bool
+	KindTwins      float64 // probability of a bare Pod named exactly like a controller workload of the same namespace (other labels)
+	SharedNames    float64 // probability that workloads of two namespaces share their name (and kind)
 }
 
 func DefaultCfg() Cfg {
@@ -94,8 +97,28 @@ func GenBase(r *rng.R, c Cfg) *World {
 		case KOwnedPods:
 			wl.NPods = r.Range(1, 3)
 			wl.OwnerKind = rng.Pick(r, []string{KReplicaSet, KStatefulSet, KDaemonSet, KJob})
+			wl.ExtraOwners = rng.Pick(r, []string{"", "", "", "before-false", "after-false", "before-omitted", "after-omitted"})
 		}
 		w.Workloads = append(w.Workloads, wl)
+	}
+	// identity strata: peers are identified by namespace/name[kind]; nothing may key them by less
+	if c.KindTwins > 0 && r.P(c.KindTwins) {
+		o := w.Workloads[r.Intn(len(w.Workloads))]
+		if o.Kind != KPod && o.Kind != KOwnedPods {
+			w.Workloads = append(w.Workloads, Workload{Ns: o.Ns, Name: o.Name, Kind: KPod, Labels: randLabels(r, 0.55), Ports: GenCPorts(r, c)})
+			w.AddFeature("kindTwins")
+		}
+	}
+	if c.SharedNames > 0 && r.P(c.SharedNames) {
+		for i := 1; i < len(w.Workloads); i++ {
+			if w.Workloads[i].Ns != w.Workloads[0].Ns && w.Workloads[i].Name != w.Workloads[0].Name {
+				w.Workloads[i].Name = w.Workloads[0].Name
+				w.Workloads[i].Kind, w.Workloads[i].Replicas = w.Workloads[0].Kind, nil
+				w.Workloads[i].OwnerKind, w.Workloads[i].NPods = w.Workloads[0].OwnerKind, w.Workloads[0].NPods
+				w.AddFeature("sharedNames")
+				break
+			}
+		}
 	}
 	for i := range w.Namespaces {
 		if !w.Namespaces[i].HasObj {
